@@ -1,6 +1,16 @@
 (* Check_C14.v — case format and per-case verdicts for the C14 correspondence run. *)
 From V Require Export CaseLib CredentialsSpec.
 
+(* one request of a history: the operation's writer, the default writer configured when the request is built, what the
+   parameters set; sent = the transport accepted the request; stable = the client-side request (headers, query), looked at
+   again after all later requests have been built, is as it was when built *)
+Record hist_step := mkstep {
+  h_op : option writer; h_def : option writer;
+  h_preh : list (bytes * bytes); h_preq : list (bytes * bytes);
+  h_sent : bool; h_stable : bool;
+  h_hdrs : obs_map; h_qry : obs_map
+}.
+
 Inductive case :=
 (* client BasicAuth(u,p) -> wire -> server BasicAuthRealm(realm, cb); cberr: the callback fails;
    observed: applies, the callback's arguments, the realm marker, principal/error are the callback's *)
@@ -16,7 +26,9 @@ Inductive case :=
 (* default authentication crossed with every kind of writer: the operation's writer, the transport-wide default writer
    (None = not configured), the header and query parameters set by the operation's parameters before the credentials
    are written; observed: every header that is not the transport's own and every query parameter the server receives *)
-| CDefaultX (op def : option writer) (preh preq : list (bytes * bytes)) (hdrs qry : obs_map).
+| CDefaultX (op def : option writer) (preh preq : list (bytes * bytes)) (hdrs qry : obs_map)
+(* several requests built one after the other on ONE Runtime, DefaultAuthentication being reassigned between them *)
+| CDefaultHist (steps : list hist_step).
 
 Definition empty_req : request := mkReq [] [] false [].
 Definition pair_eqb (a b : bytes * bytes) : bool := bytes_eqb (fst a) (fst b) && bytes_eqb (snd a) (snd b).
@@ -65,4 +77,10 @@ Definition check_case (c : case) : N :=
     let q0 := preset_request preh preq empty_req in
     verdict (wire_match hdrs qry (effective_cred op def q0))
             (wire_match hdrs qry (expected_request op def q0))
+  | CDefaultHist steps =>
+    let q0 s := preset_request (h_preh s) (h_preq s) empty_req in
+    verdict (forallb (fun s => negb (h_sent s) ||
+                               (h_stable s && wire_match (h_hdrs s) (h_qry s) (build_request (h_op s, h_def s, q0 s)))) steps)
+            (forallb (fun s => negb (h_sent s) ||
+                               (h_stable s && wire_match (h_hdrs s) (h_qry s) (expected_request (h_op s) (h_def s) (q0 s)))) steps)
   end.
